@@ -4,7 +4,7 @@ from typing import List, Optional, Tuple
 
 import libcst as cst
 from libcst._position import CodeRange
-from libcst.metadata import ParentNodeProvider, ScopeProvider
+from libcst.metadata import ClassScope, ParentNodeProvider, ScopeProvider
 
 from codemodder.codemods.utils_mixin import NameResolutionMixin
 from core_codemods.api import Metadata, Reference, ReviewGuidance, SimpleCodemod
@@ -84,12 +84,23 @@ class UseWalrusIf(SimpleCodemod, NameResolutionMixin):
     def _single_access(self, original_node: cst.IfExp) -> bool:
         match original_node.test:
             case cst.Name():
-                access = self.find_accesses(original_node.test)
+                name = original_node.test
             case cst.UnaryOperation():
-                access = self.find_accesses(original_node.test.expression)
+                name = original_node.test.expression
             case _:
-                access = self.find_accesses(original_node.test.left)
-        return len(access) == 1
+                name = original_node.test.left
+        scope = self.get_metadata(ScopeProvider, name, None)
+        if scope is None or isinstance(scope, ClassScope):
+            # a name bound in a class body is an attribute of the class: it can be used without ever being named again
+            return False
+        # scope.accesses only holds the accesses made in that very scope; nested functions, lambdas, comprehensions
+        # and classes that read the variable are references of its assignments
+        references = {
+            reference
+            for assignment in scope.assignments[name]
+            for reference in assignment.references
+        }
+        return len(references) == 1
 
     def on_visit(self, node: cst.CSTNode) -> Optional[bool]:
         if len(node.children) < 2:
